@@ -85,7 +85,7 @@ def cases(draw, tier):
     late = tuple(p for p in provs if p.startswith("late"))
     async_mode = draw(st.sampled_from(["none", "none", "all", "mixed", "late-only", "late-only"]))
     spec = draw(gen.machine_spec(max_states=4, max_extra=6, providers=provs, late=late, async_mode=async_mode, sends=draw(st.sampled_from([False, False, True])),
-                                 attach=("conv", "name"), guard_kinds=("method", "property")))
+                                 attach=("conv", "name"), guard_kinds=("method", "property"), instance_cbs=True))
     in_unless = {g for t in spec["trans"] for g in t["unless"]}
     # late listeners co-provide explicit names and guard names
     for c in list(spec["cbs"]):
@@ -121,6 +121,7 @@ def cases(draw, tier):
         if not any(g["name"] == name and g["prov"] in ctor for g in spec["guards"]):
             multi = any(g["name"] == name for g in spec["guards"])
             spec["guards"].append({"name": name, "prov": "machine", "kind": "method", "async": False, "multi": multi})
+    spec["falsy_providers"] = [p for p in provs if p.startswith("l") and draw(st.integers(0, 4)) == 0 and p not in spec.get("same_class", {}) and p not in spec.get("same_class", {}).values()]
     is_async_any = gen.is_async_spec(spec)
     cfg = {"rtc": True if is_async_any else draw(st.sampled_from([True, True, False])), "allow": draw(st.booleans()),
            "driver": draw(st.sampled_from(["sync", "sync", "loop"])), "activate": True, "late": []}
@@ -136,11 +137,13 @@ def cases(draw, tier):
         elif r < 6 and not have_sib:
             hist.append({"op": "sibling"})
             have_sib = True
+        if draw(st.integers(0, 9)) == 0:
+            hist.append({"op": "deficient_instance"})
         if have_sib and draw(st.integers(0, 3)) == 0:
             step = dict(step, target="sib")
         hist.append(step)
     # a re-attachment of a not-yet-attached late listener is simply its first attachment
-    return {"spec": spec, "cfg": cfg, "history": hist}
+    return {"spec": spec, "cfg": cfg, "history": hist, "sib_instance_cbs": draw(st.booleans())}
 
 
 def strategy(tier):
